@@ -59,6 +59,10 @@ var builtinDecls = map[string]string{
 
 func builtinAxioms(sym string) []string {
 	switch sym {
+	case "streq":
+		// Go string equality: reflexive, symmetric, and implied by identity of the terms
+		return []string{"(assert (forall ((a Str) (b Str)) (! (=> (= a b) (streq a b)) :pattern ((streq a b)))))",
+			"(assert (forall ((a Str) (b Str)) (! (= (streq a b) (streq b a)) :pattern ((streq a b)))))"}
 	case "slen":
 		return []string{"(assert (forall ((s Str)) (! (and (<= 0 (slen s)) (< (slen s) 281474976710656)) :pattern ((slen s)))))"}
 	case "idx":
